@@ -217,6 +217,6 @@ def run(ctx, res):
     if format_literals(prog, res) < 1:
         raise AnalysisBroken("no format-string call sites found in tiff.cpp")
     res.require_min("FINALISE-SIM", 2)
-    res.require_min("T-EXH", 8)
+    res.require_min("T-EXH", 6)
     res.require_min("T-CONST", 2)
     res.require_min("R-FRAME-TAGS", 4)
